@@ -243,7 +243,7 @@ def PartialPost {β} (esL : List (List β)) (sm : Nat) (accum : Int) (r : IP β)
 
 theorem indexedPartial_spec {β} (map_ : List Int) (sE : Nat) (ix : List Int) (a b : Nat) (values vals : List β)
     (mv : Int) (capI capV : Nat) (inv : Int) (sm : Nat) (accum : Int) (esL : List (List β)) (A B : Int)
-    (hix : WinOK ix values) (hab : a < b) (hb : b < ix.length)
+    (hix : WinOK ix values) (hab : a < b) (_hb : b < ix.length)
     (hA : ix[a]? = some A) (hB : ix[b]? = some B) (hvals : vals = slice values A.toNat B.toNat)
     (hsE : sE ≤ map_.length) (hesLen : sE ≤ esL.length) (hsm : sm ≤ sE) (hcapI : sE - sm ≤ capI)
     (hwin : ∀ (p : Nat) (k : Int), sm ≤ p → p < sE → map_[p]? = some k → k ≠ inv →
